@@ -577,6 +577,19 @@ def _filter_map(I, st, fid, bi, a, c, t):
 @model('<core::iter::adapters::filter_map::FilterMap<I, F> as core::iter::traits::iterator::Iterator>::next')
 def _filter_map_next(I, st, fid, bi, a, c, t):
     it = deref(I, st, a[0])
+    return _first_mapped(I, st, fid, bi, it, t)
+
+
+@model('core::iter::traits::iterator::Iterator::find_map')
+def _find_map(I, st, fid, bi, a, c, t):
+    # iter.find_map(f) is iter.filter_map(f).next() (that is how FilterMap::next is implemented)
+    src = deref(I, st, a[0]) if a[0][0] == 'addr' else a[0]
+    if src[0] == 'agg' and src[1] == 'iter:FromFn':
+        return _first_mapped(I, st, fid, bi, agg('iter:FilterMap', '', (('iter', src), ('f', a[1]))), t)
+    return None
+
+
+def _first_mapped(I, st, fid, bi, it, t):
     if it[0] == 'agg' and it[1] == 'iter:FilterMap':
         inner = field_of(it, 'iter')
         f = field_of(it, 'f')
